@@ -68,7 +68,11 @@ func cSummary(r ion.Reader, depth int, out *[]uint64) bool {
 					if err != nil {
 						return false
 					}
-					k ^= uint64(v.Sign()+2)<<44 ^ uint64(v.BitLen())<<48
+					if v.IsInt64() {
+						k ^= uint64(v.Int64()) << 28 // the same integer may be held as int64 or as big.Int (e.g. -2^63)
+					} else {
+						k ^= uint64(v.Sign()+2)<<44 ^ uint64(v.BitLen())<<48
+					}
 				} else {
 					v, err := r.Int64Value()
 					if err != nil {
@@ -169,6 +173,20 @@ func cDoc() []byte {
 		}
 		vassume(b[0] != 0)
 		return cCat(bvm, []byte{sign | 9, b[0], 0, 0, 0, 0, 0, 0, 0, 1})
+	case 4: // integers around the int64 / uint64 limits, either sign (concrete magnitudes, symbolic choice)
+		sign := byte(0x20)
+		if vnondetBool() {
+			sign = 0x30
+		}
+		mags := [][]byte{
+			{0x80, 0, 0, 0, 0, 0, 0, 0},
+			{0x80, 0, 0, 0, 0, 0, 0, 1},
+			{0xFF, 0xFF, 0xFF, 0xFF, 0xFF, 0xFF, 0xFF, 0xFF},
+			{0x01, 0, 0, 0, 0, 0, 0, 0, 0},
+			{0x7F, 0xFF, 0xFF, 0xFF, 0xFF, 0xFF, 0xFF, 0xFF},
+		}
+		m := mags[vnondetInt(0, len(mags)-1)]
+		return cCat(bvm, []byte{sign | byte(len(m))}, m, []byte{0x20})
 	case 3: // an int of either sign with an 8-byte magnitude (>= 2^56; top byte symbolic, incl. >= 2^63)
 		sign := byte(0x20)
 		if vnondetBool() {
